@@ -114,6 +114,17 @@ bool Table::exact() const
     return true;
 }
 
+bool Table::pow2() const
+{
+    for (const Val &x : v) {
+        if (x.inexact || x.inf || x.t != Val::R) return false;
+        if (x.d == 0.0) continue;
+        int e; const double m = std::frexp(std::fabs(x.d), &e);
+        if (m != 0.5) return false;
+    }
+    return true;
+}
+
 bool Table::same(const Table &o) const
 {
     if (rel != o.rel || v.size() != o.v.size()) return false;
